@@ -7,7 +7,8 @@ EXPLANATION = 'Mixed. P (from the real source of api.py, for every number of gro
 def p_parts():
     from ._rowfilter import p_rowfilter
     from ._pagemask import p_pagemask
-    return [p_rowfilter, p_pagemask]
+    from ._generic import optional_parts
+    return [p_rowfilter, p_pagemask] + optional_parts(("_readoptions", "p_readoptions"))
 
 
 def run(ctx):
